@@ -6,24 +6,23 @@ identities over `Rat`).
 import MxlVerif.Model.C12Sym
 namespace Mxl.C12
 
-theorem evalS_substArgs (ρ : Name → Rat) (xs : List Rat) (es : List SExpr) (e : SExpr) :
-    evalS ρ xs (substArgs es e) = evalS ρ (es.map (evalS ρ xs)) e := by
-  induction e with
+theorem evalS_substArgs (ρ : Name → Rat) (es : List SExpr) (b : BExpr) :
+    evalS ρ (substArgs es b) = evalB (es.map (evalS ρ)) b := by
+  induction b with
   | arg i =>
-    simp only [substArgs, evalS, List.getD_eq_getElem?_getD, List.getElem?_map]
+    simp only [substArgs, evalB, List.getD_eq_getElem?_getD, List.getElem?_map]
     cases es[i]? <;> simp [evalS]
-  | _ => simp_all [substArgs, evalS]
+  | _ => simp_all [substArgs, evalS, evalB]
 
-theorem evalS_substSym (ρ : Name → Rat) (xs : List Rat) (σ : Name → SExpr) (e : SExpr) :
-    evalS ρ xs (substSym σ e) = evalS (fun n => evalS ρ xs (σ n)) xs e := by
+theorem evalS_substSym (ρ : Name → Rat) (σ : Name → SExpr) (e : SExpr) :
+    evalS ρ (substSym σ e) = evalS (fun n => evalS ρ (σ n)) e := by
   induction e <;> simp_all [substSym, evalS]
 
-/-- a body without symbols does not look at the symbol environment -/
-theorem evalS_congr_syms (ρ ρ' : Name → Rat) (xs : List Rat) (e : SExpr)
-    (h : ∀ n ∈ freeSyms e, ρ n = ρ' n) : evalS ρ xs e = evalS ρ' xs e := by
+/-- an expression only looks at the symbols it mentions -/
+theorem evalS_congr_syms (ρ ρ' : Name → Rat) (e : SExpr)
+    (h : ∀ n ∈ freeSyms e, ρ n = ρ' n) : evalS ρ e = evalS ρ' e := by
   induction e with
   | sym n => exact h n (by simp [freeSyms])
-  | arg i => rfl
   | const q => rfl
   | add a b iha ihb | sub a b iha ihb | mul a b iha ihb | div a b iha ihb =>
     simp only [freeSyms, List.mem_append] at h
@@ -31,8 +30,8 @@ theorem evalS_congr_syms (ρ ρ' : Name → Rat) (xs : List Rat) (e : SExpr)
   | neg a iha => simp only [freeSyms] at h; simp only [evalS, iha h]
   | pow a n iha => simp only [freeSyms] at h; simp only [evalS, iha h]
 
-theorem evalS_dPow (ρ xs x) (a : SExpr) (n : Nat) :
-    evalS ρ xs (D x (.pow a n)) = dPowV (evalS ρ xs a) (evalS ρ xs (D x a)) n := by
+theorem evalS_dPow (ρ x) (a : SExpr) (n : Nat) :
+    evalS ρ (D x (.pow a n)) = dPowV (evalS ρ a) (evalS ρ (D x a)) n := by
   cases n <;> simp [D, evalS, dPowV]
 
 theorem pow_taylor (a0 a1 ra h ah : Rat) (ha : ah = a0 + h * a1 + h * h * ra) (n : Nat) :
@@ -50,17 +49,16 @@ theorem pow_taylor (a0 a1 ra h ah : Rat) (ha : ah = a0 + h * a1 + h * h * ra) (n
       grind
 
 /-- second-order expansion along the symbol `x`, with the explicit remainder `remV` -/
-theorem taylor2 (ρ : Name → Rat) (xs : List Rat) (x : Name) (h : Rat) (e : SExpr)
-    (h0 : DenOK ρ xs e) (h1 : DenOK (upd ρ x (ρ x + h)) xs e) :
-    evalS (upd ρ x (ρ x + h)) xs e
-      = evalS ρ xs e + h * evalS ρ xs (D x e) + h * h * remV ρ xs x h e := by
+theorem taylor2 (ρ : Name → Rat) (x : Name) (h : Rat) (e : SExpr)
+    (h0 : DenOK ρ e) (h1 : DenOK (upd ρ x (ρ x + h)) e) :
+    evalS (upd ρ x (ρ x + h)) e
+      = evalS ρ e + h * evalS ρ (D x e) + h * h * remV ρ x h e := by
   induction e with
   | sym n =>
     simp only [evalS, D, remV, upd]
     by_cases hn : n == x
     · simp [hn, evalS]; simp at hn; subst hn; grind
     · simp [hn, evalS]; grind
-  | arg i => simp [evalS, D, remV]; grind
   | const q => simp [evalS, D, remV]; grind
   | add a b iha ihb =>
     simp only [DenOK] at h0 h1; simp only [evalS, D, remV, iha h0.1 h1.1, ihb h0.2 h1.2]; grind
@@ -81,13 +79,13 @@ theorem taylor2 (ρ : Name → Rat) (xs : List Rat) (x : Name) (h : Rat) (e : SE
     have eb := ihb h0.2.1 h1.2.1
     simp only [evalS, D, remV]
     rw [ea]
-    generalize evalS (upd ρ x (ρ x + h)) xs b = bh at *
-    generalize evalS ρ xs a = a0 at *
-    generalize evalS ρ xs b = b0 at *
-    generalize evalS ρ xs (D x a) = a1 at *
-    generalize evalS ρ xs (D x b) = b1 at *
-    generalize remV ρ xs x h a = ra at *
-    generalize remV ρ xs x h b = rb at *
+    generalize evalS (upd ρ x (ρ x + h)) b = bh at *
+    generalize evalS ρ a = a0 at *
+    generalize evalS ρ b = b0 at *
+    generalize evalS ρ (D x a) = a1 at *
+    generalize evalS ρ (D x b) = b1 at *
+    generalize remV ρ x h a = ra at *
+    generalize remV ρ x h b = rb at *
     clear iha ihb h0 h1 ea
     subst eb
     have hne : b0 * b0 * (b0 + h * b1 + h * h * rb) ≠ 0 := by
@@ -97,7 +95,7 @@ theorem taylor2 (ρ : Name → Rat) (xs : List Rat) (x : Name) (h : Rat) (e : SE
       · exact hbh h1
     grind
 
-theorem denOKb_iff (ρ : Name → Rat) (xs : List Rat) (e : SExpr) : denOKb ρ xs e = true ↔ DenOK ρ xs e := by
+theorem denOKb_iff (ρ : Name → Rat) (e : SExpr) : denOKb ρ e = true ↔ DenOK ρ e := by
   induction e <;> simp_all [denOKb, DenOK, and_assoc]
 
 end Mxl.C12
